@@ -138,7 +138,18 @@ package dagjson
 //@   ensures[C04] err == nil && !ok ==> st.tk[0] == old(st.tk[0]) && 1 <= st.shift && st.shift <= 6
 //@   ensures[C04] forall j mathint :: 1 <= j && j <= old(st.shift) && j <= 6 ==> st.tk[j] == old(st.tk[j]) || (err == nil && ok)
 
+// C10: maps and lists are begun only below the configured maximum depth (default 1024) and every
+// recursive call is one level deeper, so the built structure never nests deeper than that; no
+// size hint is handed to an assembler (JSON has no declared lengths).
+//@ pure func maxDepthOf(o DecodeOptions) mathint = o.MaxDepth > 0 ? o.MaxDepth : 1024
+//@ func (DecodeOptions).maxDepth() (r)
+//@   assigns nothing
+//@   ensures[C10] r >= 1 && r == maxDepthOf(cfg)
+
 //@ func (*unmarshalState).unmarshal(na, tokSrc, depth) (err)
+//@   before BeginMap assert[C10] depth < maxDepthOf(st.options) && carg1 == 0 - 1
+//@   before BeginList assert[C10] depth < maxDepthOf(st.options) && carg1 == 0 - 1
+//@   before unmarshal assert[C10] carg3 == depth + 1 && carg3 <= maxDepthOf(st.options)
 //@   requires st != nil && na != nil && tokSrc != nil && buffered(st) && depth >= 0 && validtok(st.tk[0])
 //@   assigns foreign, datamodel.slot(na), st.tk, st.shift, tokSrc.rd.pos
 //   every scalar token becomes the assign call of its own kind, with its own value
@@ -172,6 +183,10 @@ package dagjson
 //@ func Decode(na, r) (err)
 //@   requires na != nil && r != nil && r.teesink == nil
 //@   before Decode assert[C04] carg0.ParseLinks && carg0.ParseBytes
+// C10: the top-level value is decoded at depth 0.
+//@ func Unmarshal(na, tokSrc, options) (err)
+//@   requires na != nil && tokSrc != nil
+//@   before unmarshal assert[C10] carg3 == 0
 
 // ---- C06: a successful decode has consumed the block to its end (only white space may follow the value) ----
 //@ func (DecodeOptions).Decode(na, r) (err)
